@@ -12,7 +12,7 @@ determined — that `sortBytes` yields an ordered list and that an ordered dupli
 * **`keys_reply_unique`** — on a keyspace with unique keys, the reply of `cmdKeys env db [n, pat]` is `bulks l` for EVERY list `l` that
   is sorted, duplicate-free and holds exactly the keys that are live at `env.now` and match `pat` — and such a list exists
   (`keys_reply_is_sorted`), so it is the unique one (`keys_reply_exists_unique`).
-* `specKeys_deterministic` — the reference semantics `C01.SpecKeys` admits exactly one reply.
+* `specKeys_deterministic` — the reference semantics `C01.SpecKeys` allows exactly one reply.
 * `keys_canon_unique` — what the driver compares: for every duplicate-free listing `obs` of exactly those keys IN ANY ORDER (Go's map
   iteration), `canonReply "keys" (bulks obs) = canonReply "keys"` of the model's reply; with `keys_reply_unique` the canonical KEYS reply
   is a function of the SET of live matching keys alone (`keys_canon_of_members`). -/
@@ -101,7 +101,7 @@ theorem keys_reply_of_members (env env' : Env) (db db' : Db) (h : db.WF) (h' : d
 
 /-! ### the reference semantics of C01 determines the KEYS reply -/
 
-/-- `C01.SpecKeys` (what the answer must contain, in canonical order) admits exactly one reply: the whole-program refinement
+/-- `C01.SpecKeys` (what the answer must contain, in canonical order) allows exactly one reply: the whole-program refinement
     `C01_holds` therefore pins the KEYS replies down, not only their members -/
 theorem specKeys_deterministic (env : Env) (ks : C01.KS) (args : List Bytes) (r r' : Reply) (ks' ks'' : C01.KS)
     (h : C01.SpecKeys env ks args r ks') (h' : C01.SpecKeys env ks args r' ks'') : r = r' ∧ ks' = ks'' := by
